@@ -5,8 +5,11 @@
 //!        nbverif catalog            dump the unit catalog of the current tree's prelude (JSON lines)
 
 mod catalog;
+mod h_assert;
 mod h_cmp;
 mod h_html;
+mod h_list;
+mod session;
 mod sym;
 mod units;
 
@@ -21,6 +24,11 @@ const ENTRIES: &[(&str, Entry)] = &[
     ("h_c12_api", h_cmp::h_c12_api),
     ("h_c20_writer", h_html::h_c20_writer),
     ("h_c20_format", h_html::h_c20_format),
+    ("h_c21_assert", h_assert::h_c21_assert),
+    ("h_c21_eq2", h_assert::h_c21_eq2),
+    ("h_c21_eq3", h_assert::h_c21_eq3),
+    ("h_c18_step", h_list::h_c18_step),
+    ("h_c18_hist", h_list::h_c18_hist),
 ];
 
 fn main() {
